@@ -57,6 +57,9 @@ def mktree(rnd, base, with_dropins=True, broken=0.08):
                         body += 'HostName=%s\n' % tag[:20]
                     if rnd.random() < 0.05:
                         body = '[broken\n'
+                    elif rnd.random() < 0.12:
+                        # an empty drop-in: the usual way to mask a drop-in of the same name in a later directory — it hides it like any other
+                        body = ''
                     files[os.path.join(d, ddir, conf)] = body
                     if rnd.random() < 0.1:
                         LINKS.add(os.path.join(d, ddir, conf))
